@@ -80,6 +80,23 @@ class Num:
         return [self.norm(int.from_bytes(b[i:i + self.size], "little")) for i in range(0, len(b), self.size)]
 
 
+_PAT = {}
+
+
+def pattern_bytes(seed, count, tsize):
+    """the bulk pattern of drivers/mpi_ops_rma.cpp"""
+    key = (seed, count, tsize)
+    if key not in _PAT:
+        if len(_PAT) > 64:
+            _PAT.clear()
+        m64 = (1 << 64) - 1
+        mask = (1 << (8 * tsize)) - 1
+        base = (seed * 0x9E3779B97F4A7C15 + 1) & m64
+        step = 0xBF58476D1CE4E5B9
+        _PAT[key] = b"".join((((base + j * step) & m64) & mask).to_bytes(tsize, "little") for j in range(count))
+    return _PAT[key]
+
+
 def merge(seqs, picks):
     """interleaves the sequences, keeping the order inside each one; picks = arbitrary integers choosing the next sequence"""
     seqs = [list(s) for s in seqs if s]
@@ -113,8 +130,14 @@ class Build:
         self.last_writer = {}       # (t, i) -> (origin, round, mode) of the last update
         self.rmw = []               # (round, target, element, old value, [(origin, call id, addend)])
         self.cas_taint = set()      # (round, target, element): a successful Compare_and_swap is followed by another call there
-        self.prog.append({"op": "win_create", "win": "w", "hex": {"@": [num.hex(m) for m in self.mem]}, "unit": self.unit,
-                          "alloc": bool(case.get("alloc"))})
+        self.nbulk = case.get("bulk", 0)
+        # bulk area after the W elements: described by the seed of its pattern (never by its elements)
+        self.bulk = [1000 + case.get("init", 0) * 8 + r for r in range(np_)]
+        wc = {"op": "win_create", "win": "w", "hex": {"@": [num.hex(m) for m in self.mem]}, "unit": self.unit, "alloc": bool(case.get("alloc"))}
+        if self.nbulk:
+            wc["bulk"] = {"@": [{"seed": self.bulk[r], "count": self.nbulk, "tsize": num.size} for r in range(np_)]}
+            self.labels.add("bulk-area")
+        self.prog.append(wc)
         rounds = case["rounds"]
         skip_open = False
         for ri, rd in enumerate(rounds):
@@ -162,10 +185,29 @@ class Build:
                     self.labels.add("successive-exclusive-epochs-same-location")
                 self.last_writer[(t, j)] = (o, ri, mode)
 
+        bulk_used = set()
+        newbulk = list(self.bulk)
         for pl in rd.get("plans", []):
             t = pl["t"] % np_
             i = pl["i"] % W
             kind = pl["kind"]
+            if kind in ("bulkput", "bulkget"):
+                # one big transfer over the whole bulk area of the target (long enough to be still in flight when a broken
+                # synchronisation call returns)
+                if not self.nbulk or t in bulk_used:
+                    continue
+                bulk_used.add(t)
+                o0 = (pl.get("o") or [0])[0] % np_
+                n = newid()
+                self.labels.add("plan:" + kind)
+                if kind == "bulkput":
+                    seed = 5000 + 16 * self.nid
+                    seqs[o0].setdefault(t, []).append([{"k": "put", "id": n, "pat": seed, "count": self.nbulk, "t": t, "disp": self.disp(W)}])
+                    newbulk[t] = seed
+                else:
+                    seqs[o0].setdefault(t, []).append([{"k": "get", "id": n, "count": self.nbulk, "t": t, "disp": self.disp(W)}])
+                    results[o0][n] = ("bulkget", ("pat", self.bulk[t]), (t, W, self.nbulk))
+                continue
             if kind == "putget" and not passive:
                 kind = "put"
             if kind == "rmw" and mode != "lock":
@@ -311,6 +353,7 @@ class Build:
         self.rma_index.append((len(self.prog), allseq))
         self.prog.append({"op": "rma", "win": "w", "type": num.tname, "seq": {"@": allseq}})
         self.mem = newmem
+        self.bulk = newbulk
         if chain:
             self.pending_results = getattr(self, "pending_results", [])
             self.pending_results.append(results)
@@ -318,8 +361,8 @@ class Build:
         if passive:
             self.prog.append({"op": "barrier"})       # the other origins' epochs must be over before the target looks at its memory
         # (after a closing fence the window is read at once: the fence itself guarantees that every operation is complete)
-        self.expect_mem.append((len(self.prog), [list(m) for m in self.mem], ri))
-        self.prog.append({"op": "win_read", "win": "w", "lock": passive})
+        self.expect_mem.append((len(self.prog), [list(m) for m in self.mem], ri, list(self.bulk)))
+        self.prog.append({"op": "win_read", "win": "w", "lock": passive, "head": W * num.size})
         allres = getattr(self, "pending_results", []) + [results]
         self.pending_results = []
         ids = [sorted(n for res in allres for n in res[r]) for r in range(np_)]
@@ -371,10 +414,21 @@ def judge(b, res, oc, E):
                 if ent is None or ent[0] is None:
                     oc.bad("not-executed", "rank %d: no result buffer for call #%d" % (r, n))
                     continue
+                if isinstance(want, tuple):
+                    import zlib
+                    exp_ = "crc:%d:%d" % (zlib.crc32(pattern_bytes(want[1], c, num.size)), c * num.size)
+                    if ent[0] != exp_:
+                        oc.bad("fetched:%s:%s" % (kind, b.case["rounds"][ri]["mode"]),
+                               "round %d (%s): rank %d, MPI_Get of the %d-element bulk area of rank %d returned %s, expected %s (pattern %d)%s"
+                               % (ri, b.case["rounds"][ri]["mode"], r, c, t, ent[0], exp_, want[1], describe(b, ri)))
+                    continue
                 got = num.unhex(ent[0])
                 if got != want:
-                    tainted = any((ri, t, j) in b.cas_taint for j in range(i, i + c))
-                    oc.bad("cas-swap-not-ordered" if tainted else "fetched:%s:%s" % (kind, b.case["rounds"][ri]["mode"]),
+                    # (an element left wrong by the known CAS defect stays suspect in the later rounds)
+                    tainted = any((r2, t, j) in b.cas_taint for r2 in range(ri + 1) for j in range(i, i + c))
+                    rmw_ = any(r2 <= ri and t2 == t and i <= i2 < i + c for r2, t2, i2, _, _ in b.rmw)
+                    oc.bad("cas-swap-not-ordered" if tainted else "exclusive-lock:not-atomic" if rmw_ else
+                           "fetched:%s:%s" % (kind, b.case["rounds"][ri]["mode"]),
                            "round %d (%s): rank %d, %s on elements [%d,%d) of rank %d fetched %s, expected %s%s"
                            % (ri, b.case["rounds"][ri]["mode"], r, kind, i, i + c, t, got, want, describe(b, ri)))
     # read-modify-write epochs: the fetched values are the partial sums of some serial order
@@ -408,9 +462,16 @@ def judge(b, res, oc, E):
                    "addends %s; the element held %s; they fetched %s: no serial order of the epochs explains these values%s"
                    % (ri, [o for o, _, _ in adds], t, i, [v for _, _, v in adds], old, [got[n] for _, n, _ in adds], describe(b, ri)))
     # window memories
-    for idx, want, ri in b.expect_mem:
+    for idx, want, ri, wantbulk in b.expect_mem:
         for r in range(b.np):
             rec = res.get(r, idx)
+            if rec is not None and b.nbulk and "hex" in rec:
+                import zlib
+                if rec.get("crc") != zlib.crc32(pattern_bytes(wantbulk[r], b.nbulk, num.size)):
+                    oc.bad("window-bulk:%s" % b.case["rounds"][ri]["mode"],
+                           "after round %d (%s) the %d-element bulk area of the window of rank %d does not hold the expected pattern %d (CRC %s)%s"
+                           % (ri, b.case["rounds"][ri]["mode"], b.nbulk, r, wantbulk[r], rec.get("crc"), describe(b, ri)))
+                    return
             if rec is None or "hex" not in rec:
                 oc.bad("not-executed", "rank %d did not report its window (program index %d)" % (r, idx))
                 return
@@ -422,7 +483,7 @@ def judge(b, res, oc, E):
             if got != want[r]:
                 diff = [j for j in range(len(want[r])) if j >= len(got) or got[j] != want[r][j]]
                 tainted = all(any((r2, r, j) in b.cas_taint for r2 in range(ri + 1)) for j in diff)
-                rmw_ = all(any((r2, t2, i2) == (ri, r, j) for r2, t2, i2, _, _ in b.rmw) for j in diff)
+                rmw_ = all(any(r2 <= ri and (t2, i2) == (r, j) for r2, t2, i2, _, _ in b.rmw) for j in diff)
                 oc.bad("cas-swap-not-ordered" if tainted else "exclusive-lock:not-atomic" if rmw_ else "window:%s" % b.case["rounds"][ri]["mode"],
                        "after round %d (%s) the window of rank %d holds %s, expected %s (elements %s differ)%s"
                        % (ri, b.case["rounds"][ri]["mode"], r, got, want[r], diff, describe(b, ri)))
